@@ -247,7 +247,7 @@ theorem getLabel_good (U : Nat → Bytes) {s : State} {i : Nat} (hg : Good s i) 
   · exact ⟨v, by rw [getLabel_pass_own]⟩
   · rw [getLabel_pass_other U s j _ n hno]
     simp only [getLabel, hp]
-    cases assoc n pr.known with
+    cases BN.assoc n pr.known with
     | some pos => exact ⟨U pos, by simp [hf, sprintf1_s]⟩
     | none => exact ⟨U s.uuidPos, by simp [hf, sprintf1_s]⟩
 
@@ -295,7 +295,7 @@ theorem peek_uuid_label (U : Nat → Bytes) {s : State} {i : Nat} (hg : Good s i
     (h : peek U s (.uuid i) n = some (.label l)) : ∃ k, l = U k := by
   obtain ⟨pr, hp, hf⟩ := hg
   simp only [peek, hp] at h
-  cases ha : assoc n pr.known with
+  cases ha : BN.assoc n pr.known with
   | none => rw [ha] at h; simp at h
   | some pos =>
     rw [ha] at h
